@@ -1,7 +1,47 @@
 """Per-property configuration of ./check: Lean modules holding the property theorems, the
 correspondence streams (harness stream name = vmodel tag), evidence texts."""
 
+BAD_OBS = r"leak=[1-9]|leak=-1|out=[1-9]|OUTSIDE-CHANGED|!STRAY|!BADLEN|!BADCOUNT|!WRITEHANG|=T:"
+
+_CONN_ASSUME = ["OS filesystem: lexical resolution of '..'-free absolute paths; getdents order stable for an unchanged directory",
+                "Go runtime/stdlib (encoding/binary, io.CopyBuffer/LimitReader, bytes.Buffer, path/filepath) and afero BasePathFs/Walk modelled from their source",
+                "harness: in-memory duplex connection (two io.Pipes) instead of TCP; atime/ctime and 'now' timestamps are masked, READ_DIR compared as a multiset"]
+
 PROPS = {
+ "C01": {
+  "props_modules": ["Ps3.Props.C01"],
+  "streams": [{"name": "c01", "bad_obs": BAD_OBS}, {"name": "c01p"}],
+  "rule": "c01: every one of the 8 path-carrying opcodes x hostile path strings (fixed escapes + random walks over {.., ., '', sibling-with-root-prefix, NUL, 255-byte, names of the tree}) x writing on/off x with/without prior history; "
+          "each session is run twice with different worlds OUTSIDE the root (oracle = twin run) and the recorder under BasePathFs counts OS paths outside the root; non-trivial = path contains '..', NUL or is over-long. "
+          "c01p: filepath.Clean('/'+p) and BasePathFs.RealPath vs the Lean PathStr model on random component strings x 8 root spellings",
+  "assumptions": _CONN_ASSUME + ["symlinks inside the root are followed by design (outside the claim)", "Windows path semantics not modelled"],
+ },
+ "C02": {
+  "props_modules": ["Ps3.Props.C02"],
+  "streams": [{"name": "c02", "bad_obs": BAD_OBS}],
+  "rule": "files of boundary sizes (0,1,2047..2049,65535..65537,…, sparse files past 4 GiB with marker bytes) x OPEN_FILE then 1-6 READ_FILE / READ_FILE_CRITICAL with (offset,limit) from structural boundaries incl. offset>=size, limit 0, crossing EOF, interleaved with other requests; "
+          "oracle = the harness's own copy of the content; distinct = (size, request list)",
+  "assumptions": _CONN_ASSUME + ["Content.read (pattern + overlays spliced) is the model's notion of 'the stored bytes'; tied to the real files byte-for-byte by the differential"],
+ },
+ "C03": {
+  "props_modules": ["Ps3.Props.C03"],
+  "streams": [{"name": "c03", "bad_obs": BAD_OBS}, {"name": "conn", "bad_obs": BAD_OBS}],
+  "rule": "c03: raw byte streams = valid request sequences cut at/around every request boundary and inside commands/paths/payloads, unknown opcodes spliced in, short WRITE payloads, garbage, lying path lengths; observable = all bytes sent by the server + exact number of request bytes consumed + final tree. "
+          "conn: random lockstep sessions over all 15 opcodes in all state combinations (dir open/exhausted, ro file, wo file, writing on/off), every response compared; distinct = (tree, request list)",
+  "assumptions": _CONN_ASSUME,
+ },
+ "C05": {
+  "props_modules": ["Ps3.Props.C05"],
+  "streams": [{"name": "c05", "bad_obs": BAD_OBS}],
+  "rule": "read-only servers bombarded with mutating requests (full before/after snapshot of the root: names, kinds, sizes, content hashes, mtimes) and write-enabled upload sessions (CREATE new/existing/nested/virtual/impossible targets, 0-4 WRITE chunks of 0..140000 bytes, read back through the server, MKDIR/RMDIR/DELETE incl. wrong-kind targets); distinct = session",
+  "assumptions": _CONN_ASSUME + ["the switch itself (flag/env/ini) is C19's"],
+ },
+ "C06": {
+  "props_modules": ["Ps3.Props.C06"],
+  "streams": [{"name": "c06", "bad_obs": BAD_OBS}],
+  "rule": "generated trees (nested, 255-byte and non-ASCII names, symlinks to files/dirs/nothing, a directory with hundreds/thousands of entries) x {bulk listing twice, entry-by-entry v1/v2 until past the end with interleaved STATs, STAT + GET_DIR_SIZE of every kind of path}; oracle = the harness's own stat walk of the tree it built",
+  "assumptions": _CONN_ASSUME,
+ },
  "C14": {
   "props_modules": ["Ps3.Props.C14"],
   "streams": [{"name": "c14"}],
@@ -10,9 +50,27 @@ PROPS = {
   "assumptions": ["net/netip address parsing and strconv.Atoi are modelled from their Go 1.23 source (glue, tied by the differential only)",
                   "oracle: net/netip + math/big implementation of the documented set"],
  },
+ "C17": {
+  "props_modules": ["Ps3.Props.C17"],
+  "streams": [{"name": "c17", "bad_obs": BAD_OBS}],
+  "rule": "sparse raw CD images for all 7 sector sizes x both signatures, sizes at/around the 2 MiB and 848 MiB window edges, no signature; several images re-opened on one connection; (start,count) incl. start != count, count 0, and a final range crossing EOF; oracle = user-data slices of the synthesised image",
+  "assumptions": _CONN_ASSUME,
+ },
 }
 
 LEVEL_TEXT = {
+ "C01": "Theorem: for every byte string, filepath.Clean('/'+p) (Lean model of Go's Clean, itself tied to the real function) yields only normal components, so the OS path is the root extended by normal components - for all 8 opcodes, which all depend on the cleaned path only; derived paths (dir entries, REDKEY, PARAM.SFO) preserve this. "
+        "Tie: sessions with hostile paths on the real server with a recorder under BasePathFs, twin runs with different outside worlds.",
+ "C02": "Theorems on the connection model: READ_FILE announces min(limit,size-off) and sends exactly those bytes, the critical read sends them raw and closes iff short (after a correct prefix), any chunk schedule accumulates to one slice, no other request changes the open object; OPEN announces size/mtime. "
+        "Tie: differential on boundary sizes/offsets incl. sparse >4 GiB files, with an independent content oracle.",
+ "C03": "Theorems: for each of the 15 opcodes, decode(spec-encoding(r) ++ rest) = (r, rest) with the decoder generic over the regenerated struct layouts (exact consumption); one response per request in order, nothing after a close; unknown/truncated requests close with no byte; all response lengths/layouts. "
+        "Tie: raw streams with every kind of truncation/garbage (bytes sent + bytes consumed compared exactly) and random lockstep sessions.",
+ "C05": "Theorems: with writing off, no request and no byte stream changes the world (induction over the serve loop) and every mutating request is refused with ff ff ff ff without ending the connection; with writing on, WRITE appends exactly the payload and any chunk sequence after CREATE leaves exactly the concatenation; virtual paths are never written. "
+        "Tie: snapshot-compared sessions on the real server.",
+ "C06": "Theorems: OPEN_DIR true iff directory; each entry-by-entry step reports exactly the next not-yet-reported entry (symlinks resolved, dangling skipped) or the end marker, which is then stable; the bulk listing is exactly the remaining entries; reported kind/size/mtime are the resolved object's; STAT and dir-size equations. "
+        "Tie: differential against the harness's own stat walk.",
+ "C17": "Theorems: (start,count) are decoded in wire order; the answer is exactly the concatenation of the 2048-byte user-data slices at 24+(start+k)*S, closing iff a sector is cut short (after the correct prefix), nothing for count 0; detection returns the first candidate whose sector 16 carries either signature, for each of the 7 sizes. "
+        "Tie: synthesised images with an independent slice oracle.",
  "C14": "Kernel-checked theorems over the Lean model of ParseIPRange/Contains: byte-wise comparison is numeric comparison, membership is exactly "
         "'between the bounds' for every 16-byte address, IPv4 and IPv4-mapped forms are treated alike, reversed / mixed-family / malformed bounds are rejected. "
         "The model (incl. Go's address and integer parsing) is tied to the code by a differential run over generated specifications and probe addresses, "
